@@ -150,7 +150,13 @@ func analyse(def *propDef, tier string, overlay map[string][]byte) (c *Ctx, err 
 	}()
 	var P *Program
 	if tier == "thorough" {
-		P, err = Load([]string{"./..."}, true, overlay)
+		pats := []string{"./..."}
+		for _, p := range def.Patterns {
+			if !strings.HasPrefix(p, ".") {
+				pats = append(pats, p) // reference packages outside the module (e.g. go-mc's id table)
+			}
+		}
+		P, err = Load(pats, true, overlay)
 	} else {
 		P, err = Load(def.Patterns, false, overlay)
 	}
